@@ -1,14 +1,131 @@
 # Per-property driver configuration: tier budgets (shards x rounds x cases per
 # process), build options, evidence level. Rules and classification live next
 # to the Go code of each check and arrive through the partial files.
+# Keys: level, quick/thorough {shards, rounds, checks, timeout[s], env{}}, optional: race (build with -race),
+# run (regexp for -test.run, default ^TestProp), env{}, count_check (default True: evaluations >= checks per process),
+# shrinktime, ulimit_v_kb, assumptions[], exhaustive_subspace.
 CHECKS = {
     "C01": {
         "level": "exploration",
         "quick": {"shards": 16, "rounds": 1, "checks": 400, "timeout": 900},
-        "thorough": {"shards": 16, "rounds": 6, "checks": 500, "timeout": 3000},
+        "thorough": {"shards": 16, "rounds": 8, "checks": 500, "timeout": 3000},
         "assumptions": [
             "single client; the background flush goroutine is quiesced between steps so a case is a function of its program",
             "process-level semantics only (no power-loss model)",
         ],
+    },
+    "C02": {
+        "level": "fault_enumeration",
+        "quick": {"shards": 16, "rounds": 1, "checks": 100, "timeout": 900},
+        "thorough": {"shards": 16, "rounds": 4, "checks": 500, "timeout": 3000},
+        "assumptions": [],
+    },
+    "C03": {
+        "level": "fault_enumeration",
+        "quick": {"shards": 16, "rounds": 1, "checks": 100, "timeout": 900},
+        "thorough": {"shards": 16, "rounds": 4, "checks": 500, "timeout": 3000},
+        "assumptions": [],
+    },
+    "C04": {
+        "level": "exploration",
+        "quick": {"shards": 16, "rounds": 1, "checks": 100, "timeout": 900},
+        "thorough": {"shards": 16, "rounds": 4, "checks": 500, "timeout": 3000},
+        "assumptions": [],
+    },
+    "C05": {
+        "level": "exploration",
+        "quick": {"shards": 16, "rounds": 1, "checks": 100, "timeout": 900},
+        "thorough": {"shards": 16, "rounds": 4, "checks": 500, "timeout": 3000},
+        "assumptions": [],
+    },
+    "C06": {
+        "level": "exploration",
+        "quick": {"shards": 16, "rounds": 1, "checks": 100, "timeout": 900},
+        "thorough": {"shards": 16, "rounds": 4, "checks": 500, "timeout": 3000},
+        "assumptions": [],
+    },
+    "C07": {
+        "level": "exploration", "race": True,
+        "quick": {"shards": 16, "rounds": 1, "checks": 100, "timeout": 900},
+        "thorough": {"shards": 16, "rounds": 4, "checks": 500, "timeout": 3000},
+        "assumptions": [],
+    },
+    "C08": {
+        "level": "exploration",
+        "quick": {"shards": 16, "rounds": 1, "checks": 100, "timeout": 900},
+        "thorough": {"shards": 16, "rounds": 4, "checks": 500, "timeout": 3000},
+        "assumptions": [],
+    },
+    "C09": {
+        "level": "exploration",
+        "quick": {"shards": 16, "rounds": 1, "checks": 100, "timeout": 900},
+        "thorough": {"shards": 16, "rounds": 4, "checks": 500, "timeout": 3000},
+        "assumptions": [],
+    },
+    "C10": {
+        "level": "fault_enumeration",
+        "quick": {"shards": 16, "rounds": 1, "checks": 100, "timeout": 900},
+        "thorough": {"shards": 16, "rounds": 4, "checks": 500, "timeout": 3000},
+        "assumptions": [],
+    },
+    "C11": {
+        "level": "exploration",
+        "quick": {"shards": 16, "rounds": 1, "checks": 100, "timeout": 900},
+        "thorough": {"shards": 16, "rounds": 4, "checks": 500, "timeout": 3000},
+        "assumptions": [],
+    },
+    "C12": {
+        "level": "exploration",
+        "quick": {"shards": 16, "rounds": 1, "checks": 100, "timeout": 900},
+        "thorough": {"shards": 16, "rounds": 4, "checks": 500, "timeout": 3000},
+        "assumptions": [],
+    },
+    "C13": {
+        "level": "exploration",
+        "quick": {"shards": 16, "rounds": 1, "checks": 100, "timeout": 900},
+        "thorough": {"shards": 16, "rounds": 4, "checks": 500, "timeout": 3000},
+        "assumptions": [],
+    },
+    "C14": {
+        "level": "exploration",
+        "quick": {"shards": 16, "rounds": 1, "checks": 100, "timeout": 900},
+        "thorough": {"shards": 16, "rounds": 4, "checks": 500, "timeout": 3000},
+        "assumptions": [],
+    },
+    "C15": {
+        "level": "exploration",
+        "quick": {"shards": 16, "rounds": 1, "checks": 100, "timeout": 900},
+        "thorough": {"shards": 16, "rounds": 4, "checks": 500, "timeout": 3000},
+        "assumptions": [],
+    },
+    "C16": {
+        "level": "exploration",
+        "quick": {"shards": 16, "rounds": 1, "checks": 100, "timeout": 900},
+        "thorough": {"shards": 16, "rounds": 4, "checks": 500, "timeout": 3000},
+        "assumptions": [],
+    },
+    "C17": {
+        "level": "exploration",
+        "quick": {"shards": 16, "rounds": 1, "checks": 100, "timeout": 900},
+        "thorough": {"shards": 16, "rounds": 4, "checks": 500, "timeout": 3000},
+        "assumptions": [],
+    },
+    "C18": {
+        "level": "exploration", "race": True,
+        "quick": {"shards": 16, "rounds": 1, "checks": 100, "timeout": 900},
+        "thorough": {"shards": 16, "rounds": 4, "checks": 500, "timeout": 3000},
+        "assumptions": [],
+    },
+    "C19": {
+        "level": "exploration",
+        "quick": {"shards": 16, "rounds": 1, "checks": 100, "timeout": 900},
+        "thorough": {"shards": 16, "rounds": 4, "checks": 500, "timeout": 3000},
+        "assumptions": [],
+    },
+    "C20": {
+        "level": "exploration",
+        "quick": {"shards": 16, "rounds": 1, "checks": 100, "timeout": 900},
+        "thorough": {"shards": 16, "rounds": 4, "checks": 500, "timeout": 3000},
+        "assumptions": [],
     },
 }
